@@ -33,9 +33,7 @@ def assignment_determinism(ctx, rep, rule: str, classes: list[str]) -> None:
     rt = rank_engine(ctx)
     for cq in classes:
         ci = repo.cls(cq)
-        fi = ci.methods.get("_distribute_buffer_sizes")
-        if fi is None:
-            raise AnalysisError(f"{rule}: {ci.name}._distribute_buffer_sizes not found")
+        fi = repo.meth(ci, "_distribute_buffer_sizes")
         m = fi.module
         sc = _scope(sp, fi, ci)
         # (a) purity w.r.t. rank and non-determinism
@@ -196,6 +194,21 @@ def buffer_views(ctx, rep, rule: str, classes: list[str]) -> None:
                 if isinstance(n, ast.BinOp) and isinstance(n.op, ast.Mult) and "numel()" in ast.unparse(n) and "get_dtype_size" in ast.unparse(n):
                     out.add(_norm(n))
             return out
+        # the number of ranks the assignment spreads the blocks over is the number of segments of the gather buffer
+        from ..canon import composed_call
+
+        asg = repo.meth(ci, "_distribute_buffer_sizes")
+        acalls = [c for c in A.calls(init.node, nested=True) if isinstance(c.func, ast.Attribute) and c.func.attr == "_distribute_buffer_sizes"]
+        heap_sizes, seg = set(), set()
+        if len(acalls) == 1:
+            body = composed_call(asg.node, asg.cls is not None, acalls[0], init.node) or []
+            for n in ast.walk(ast.Module(body=body, type_ignores=[])):
+                if isinstance(n, ast.Call) and isinstance(n.func, ast.Name) and n.func.id == "range" and len(n.args) == 1 and "size" in _norm(n.args[0]):
+                    heap_sizes.add(A.expanded(init.node, n.args[0]))
+        for n in ast.walk(cdb.node):
+            if isinstance(n, ast.BinOp) and isinstance(n.op, ast.Mult) and isinstance(n.right, ast.Attribute) and "size" in n.right.attr and "sum" in _norm(n.left):
+                seg.add(_norm(n.right))
+        rep.ob(rule, f"views:{ci.name}:assignment-spreads-over-the-buffer-segments", len(heap_sizes) == 1 and heap_sizes == seg, init.loc(acalls[0]) if acalls else init.loc(), f"the assignment distributes the blocks over {sorted(heap_sizes)} rank slot(s); the gather buffer has one segment per {sorted(seg)}: they must be the same group size (an owner index beyond the communication group has no segment)", sample=True)
         a, b = size_exprs(init), size_exprs(cdb)
         rep.ob(rule, f"views:{ci.name}:size-expression-agreement", len(a) == 1 and a == b, cdb.loc(), f"per-block byte size at the assignment input {sorted(a)} and at the view construction {sorted(b)} must be the same expression")
         # the local send buffer is the group_rank-th split of the gather buffer
@@ -216,7 +229,7 @@ def alignment_arithmetic(ctx, rep, rule: str, classes: list[str]) -> None:
         ci = repo.cls(cq)
         fi = repo.meth(ci, "_distribute_buffer_sizes")
         consts = [n for n in A.walk_no_nested(fi.node) if isinstance(n, ast.Assign) and isinstance(n.targets[0], ast.Name) and isinstance(n.value, ast.Constant) and isinstance(n.value.value, int)]
-        comps = [n for n in A.walk_no_nested(fi.node) if isinstance(n, ast.Assign) and isinstance(n.value, ast.ListComp) and len(n.value.generators) == 1 and _norm(n.value.generators[0].iter) == fi.params[1]]
+        comps = [n for n in A.walk_no_nested(fi.node) if isinstance(n, ast.Assign) and isinstance(n.value, ast.ListComp) and len(n.value.generators) == 1 and _norm(n.value.generators[0].iter) == [p_ for p_ in fi.params if p_ not in ("self", "cls")][0]]
         ok = len(consts) == 1 and len(comps) == 1
         detail = f"{len(consts)} integer constant(s), {len(comps)} per-size list comprehension(s)"
         if ok:
